@@ -17,6 +17,11 @@ fn oracle_with(cap: i64, budget: u64) -> impl Fn(&ExecCase, &mut Obs) -> Result<
         };
         let sum = lockstep(case, &cfg, obs)?;
         exec_agrees_with_lockstep(case, &sum)?;
+        // the same again with all children on one worker thread and spread over two (how children are grouped
+        // onto threads must not matter)
+        for pool in crate::props::c02::pools().iter().take(2) {
+            pool.install(|| exec_agrees_with_lockstep(case, &sum))?;
+        }
         let mut nontrivial = false;
         for c in &sum.compute_log {
             if c.ok {
